@@ -262,6 +262,16 @@ def step (s : St) (j : Json) : R (St × Json) := do
       ("wf", decide (WfName q)),
       ("parent_owns", match par with | some p => decide (p.Owns q) | none => false),
       ("own_resolves", (m.resolveOwn q.print).isSome)])
+  | "enc_json" =>
+    let c ← s.cont j "c"
+    match s.h.encodeJson c with
+    | some t => return (s, Json.mkObj [("tree", encJVal t)])
+    | none => return (s, Json.mkObj [("tree", Json.null), ("unspecified", true)])
+  | "dec_json" =>
+    let t ← decJVal (← j.getObjVal? "tree")
+    match s.h.decodeJson t with
+    | (h, .ok d) => return (← { s with h := h }.bindCont j d, errJson none)
+    | (h, .error e) => return ({ s with h := h }, errJson (some e))
   | "obs" =>
     let c ← s.cont j "c"
     return (s, encCont s.h c)
